@@ -191,6 +191,11 @@ func c04Fluent(r *rand.Rand, idx int, docs []map[string]any) Case {
 	defer os.Remove(file)
 	var got any
 	pn := guard(func() {
+		// helpers are independent of each other: one that was only mutated leaves nothing behind for the next
+		fluent.NewConfigHelper[map[string]any]().Mutate(func(cb dom.ContainerBuilder) {
+			cb.AddValue("left-over-of-an-earlier-helper", dom.LeafNode(1))
+			cb.AddValueAt("a.left-over", dom.LeafNode(2))
+		})
 		h := fluent.NewConfigHelper[map[string]any]()
 		for i, d := range docs[:len(docs)-1] {
 			// a source is a plain map, a document under construction, or its read-only view
